@@ -124,6 +124,27 @@ def c04_fails(binary, c):
     e = c.get("e")
     if e is None:
         return None
+    if c["kind"] in ("applyraw", "applybasis"):
+        # the case as it was run (its threading model, its input) against its factors' own matrices applied one by one
+        from opscheck import harness_text
+        gates = flatten(e)
+        ms = impl_matrices(binary, n, gates)
+        if any(m[0] != "ok" for m in ms):
+            return None
+        got = _vec(_run(binary, [harness_text(c)])[0])
+        if got is None:
+            return "applying the product %s although every factor builds" % "fails"
+        if c["kind"] == "applyraw":
+            v = np.array(c["raw"][:1 << n], dtype=complex); pad = list(c["raw"][1 << n:])
+        else:
+            v = np.zeros(1 << n, dtype=complex); v[c["j"] & ((1 << n) - 1)] = 1; pad = [0j] * (max(1 << n, 8) - (1 << n))
+        for m in ms:
+            v = m[2] @ v
+        want = np.array(list(v) + pad, dtype=complex)
+        if not close(got, want):
+            return ("applying the product (threads=%d) differs from applying its factors one after another"
+                    % c.get("threads", 1)) if gates else "the empty product (identity) changes the state (threads=%d)" % c.get("threads", 1)
+        return None
     gates = flatten(e)
     ms = impl_matrices(binary, n, [e] + gates)
     if any(m[0] != "ok" for m in ms):
